@@ -346,8 +346,18 @@ def retained_objective_cases(ctx):
     """keep_soft_constraints / single pass: what is retained from an earlier priority is its documented
     objective (probability-weighted over members, summed over time) <= the optimum found; checked on every
     later solution of generated trade-off cases (unequal probabilities, negative optima)"""
-    for _ in range(ctx.n(10, 250)):
-        c = c02.gen_tradeoff_run(ctx.rng)
+    fixed = []
+    for variant, path, later in (("multi_keep_soft", True, "target"), ("single_append", True, "min"),
+                                 ("single_update", True, "target"), ("multi_keep_soft", False, "min")):
+        g1 = {"path": path, "fn": "y", "prio": 1, "k": 1, "order": 1, "weight": 1, "nominal": 1, "tmin": -2.0, "tmax": -2.0}
+        g0 = {"path": not path, "fn": "z", "prio": 1, "k": 0, "order": 1, "weight": 1, "nominal": 1, "tmax": 9.0}
+        g2 = {"path": path, "fn": "y", "prio": 2, "k": 1, "order": 1, "weight": 1, "nominal": 1}
+        if later == "target":
+            g2["tmin"] = 11.0
+        fixed.append({"k": "run", "times": [0, 1, 2], "E": 2, "p": [0, "1/2"], "probabilities": ["1/4", "3/4"],
+                      "variant": variant, "goals": [g1, g0, g2], "options": {}})
+    for i in range(ctx.n(10, 250)):
+        c = fixed[i] if i < len(fixed) else c02.gen_tradeoff_run(ctx.rng)
         out = c02.run_case(c)
         ctx.count("retained_objective_cases")
         ctx.case_done(core.fingerprint(["retained-objective", c["variant"], c["E"], bool(c.get("probabilities")),
